@@ -366,7 +366,12 @@ pub fn run(ctx: &Ctx) -> Result<Ev, String> {
         par::prop_shard("C18", seed, s, per, &cli_case(), |c, ev| {
             ev.eval();
             ev.class(&format!("source:{}", KINDS[c.kind as usize % KINDS.len()]));
-            match run_case(c, &root, &cli) {
+            let mut outcome = run_case(c, &root, &cli);
+            // a tool killed by a signal is run again before it counts (it can be the host's doing)
+            if matches!(&outcome, Ok(Err((_, why))) if why.contains("exit None")) {
+                outcome = run_case(c, &root, &cli);
+            }
+            match outcome {
                 Ok(Ok((class, nontrivial))) => {
                     ev.class(&format!("outcome:{}", class));
                     if nontrivial {
